@@ -160,10 +160,11 @@ Proof.
     rewrite rev_app_distr. cbn [rev app]. rewrite String.eqb_refl, rev_involutive. cbn [andb].
     rewrite announced_b_model, andb_true_r.
     (* path and query: the model takes the query as sent, the second reading the predicate accepts *)
-    unfold o_parse_uri.
+    unfold read_uri, o_parse_uri.
     destruct (hdr_ci XFU (k_raw c)) as [u|]; [|rewrite !String.eqb_refl; reflexivity].
     destruct (nonempty u); [|rewrite !String.eqb_refl; reflexivity].
-    destruct (o_parse_uri3 c u) as [[[p q] rq]|]; cbn [option_map fst snd]; rewrite !String.eqb_refl, ?orb_true_r; reflexivity.
+    destruct (o_parse_uri3 c u) as [[[p q] rq]|]; cbn [option_map fst snd];
+      [|destruct (cut_at "?" u) as [cp cq]; cbn [fst snd]]; rewrite !String.eqb_refl, ?orb_true_r; reflexivity.
   - (* not listed *)
     assert (Hl : ~ listed_cfg (o_parse_ip c) (o_parse_cidr c) (o_split c) (k_mode c) (k_cfg c) (r_remote (k_req c))).
     { intro L. apply listed_cfgb_spec in L. rewrite L in El. discriminate. }
